@@ -114,6 +114,8 @@ SENSITIVITY = {
     "r21b": ("seeded/r21b/patch.diff", "C17", ["result-mismatch", "data-race"], "C / B: slope row behind a 'biased lock' (UnsafeCell + unsafe impl Sync); the owner's load-then-store fast path races a take-over CAS"),
     "r21c": ("seeded/r21c/patch.diff", "C18", ["error-changed", "callback-invariant"], "A: batch loops append the query index to errors whose text ends in 'is not in range' - also a user strategy's"),
     "r21d": ("seeded/r21d/patch.diff", "C18", ["callback-invariant"], "A: degenerate-stride table - index_point via precomputed row offsets whose bounds check is index*|stride| < len*|stride| (stride 0)"),
+    "r22a": ("seeded/r22a/patch.diff", "C17", ["result-mismatch", "entry-point-mismatch"], "A: periodic extrapolating spline remembers (period number from 0, distance) of the last wrap; the bucket straddles a true period boundary when x0 is not a multiple of the period"),
+    "r22b": ("seeded/r22b/patch.diff", "C18", ["build-invoked-on-invalid-input", "build-invariant"], "A: aliasing builder cases - 2-D builder skips the y scan when y starts at x's first element with the same length (stride ignored)"),
     "M17": ("mutants/M17.diff", "C17", ["result-mismatch"], "A: degenerate-stride histories - Linear packs the rows on first use, taking stride[0] elements per row (0 for a broadcast row); later calls read the packed copy"),
     "M16": ("mutants/M16.diff", "C17", ["answers-differ-between-processes", "process-history-dependence"], "A: evaluation order picked once per process from the hasher's random seed"),
 }
